@@ -388,7 +388,7 @@ func injectedWriteError(k int) error {
 
 func TestC13WriteFailure(t *testing.T) {
 	rec := evid.New(t, "C13", "2..4 channels; after a warm-up a write fails on one channel - the transport returns an error at a generated call, or an item that cannot be encoded for the link is written (raw message with an id outside the dialect, raw message on a dialect-less node, message id > 255 on a v1 node) at a generated position - then valid items follow; within the bound each affected channel must either be reported closed or deliver a later valid item; healthy channels keep receiving everything; non-trivial = later valid writes follow the failure; distinct by hash of the parameters")
-	rec.Require("transport-error", "raw-outside-dialect", "id>255-on-v1", "raw-on-dialectless")
+	rec.Require("transport-error", "raw-outside-dialect", "id>255-on-v1", "raw-on-dialectless", "more-failures-than-queue-places")
 	evid.Check(t, rec, evid.N(200, 600), func(t *rapid.T) {
 		drawNodeInit(t)
 		nch := rapid.IntRange(2, 4).Draw(t, "nch")
@@ -396,13 +396,18 @@ func TestC13WriteFailure(t *testing.T) {
 		victim := rapid.IntRange(0, nch-1).Draw(t, "victim")
 		before := rapid.IntRange(0, 12).Draw(t, "before")
 		after := rapid.IntRange(1, 30).Draw(t, "after")
-		repeat := rapid.IntRange(1, 3).Draw(t, "repeat")
+		// a few failures, or more of them than the channel's queue has places
+		repeat := rapid.OneOf(rapid.IntRange(1, 3), rapid.IntRange(1, 3), rapid.IntRange(65, 90)).Draw(t, "repeat")
 		desc := fmt.Sprintf("channels=%d kind=%s victim=%d before=%d after=%d faults=%d", nch, kind, victim, before, after, repeat)
 		if err := watchdog(scenarioLimit, func() error { return runC13Failure(nch, kind, victim, before, after, repeat) }); err != nil {
 			evid.ReplayNote("C13", "TestC13WriteFailure", desc+"\n"+err.Error())
 			t.Fatalf("%s\n%v", desc, err)
 		}
-		rec.Case(true, evid.HashS(desc), kind)
+		cls := []string{kind}
+		if repeat > 64 {
+			cls = append(cls, "more-failures-than-queue-places")
+		}
+		rec.Case(true, evid.HashS(desc), cls...)
 		rec.Sample(kind, desc)
 	})
 }
@@ -493,7 +498,11 @@ func runC13Failure(nch int, kind string, victim, before, after, repeat int) erro
 				affected[i] = true
 			}
 		}
-		time.Sleep(time.Duration(r) * time.Millisecond)
+		if repeat <= 3 {
+			time.Sleep(time.Duration(r) * time.Millisecond)
+		} else {
+			time.Sleep(300 * time.Microsecond) // let the writer get rid of the item: this is not about a full queue
+		}
 	}
 	firstAfter := counter
 	marks := make([]int, nch)
